@@ -747,6 +747,10 @@ def gen_doc(rng, big=False):
             for b in set(locs.values()) | {stdbufs[0]}:
                 here = [j for j in range(nj) if locs.get(j, stdbufs[0]) == b]
                 rng.shuffle(here)
+                if here and rng.random() < 0.35:
+                    # partial listing: the jobs not listed are still located here and must be stored after the listed ones
+                    here = here[: rng.randint(1, len(here))]
+                    feats["partial_store_listing"] = True
                 if here:
                     ini[b] = {"store": ["j-%d" % j for j in here]}
     if not ini:
@@ -892,6 +896,55 @@ def _direct_compile_oracles(d, inst, st):
     return vs
 
 
+def setup_matrix_oracle(d, inst):
+    """Direct reading of the document's setup matrices compared with the compiled machines (C09, C16):
+    machine m's entry (from-tool row, to-tool column) is the number written in m's own matrix."""
+    vs = []
+    st = d["instance_config"].get("setup_times") or []
+    bym = {m.id: m for m in inst.machines}
+    for e in st:
+        if e.get("time_behavior", "static") not in ("static", None):
+            continue
+        m = bym.get(e["machine"])
+        if m is None:
+            continue
+        ls = [l for l in e["specification"].split("\n") if l.strip()]
+        hdr = [h.strip() for h in ls[0].split("|")]
+        for l in ls[1:]:
+            lab, vals = l.split("|", 1)
+            lab = lab.strip()
+            for h, v in zip(hdr, vals.split()):
+                got = m.setup_times.get((lab, h))
+                if got is None or getattr(got, "time", None) != int(v):
+                    vs.append({"kind": "setup:wrong_entry", "detail": "document says setup %s -> %s on %s takes %s, compiled "
+                               "machine says %s" % (lab, h, m.id, v, getattr(got, "time", got)), "replay": {"dsl": d},
+                               "facts": {}})
+                    return vs
+    return vs
+
+
+def c09_compile_stage(ctx):
+    """C09 names the compiler too: the matrix a machine uses is the one written for that machine. Documents with
+    up to 13 machines (two-digit machine numbers), each machine with its own matrix; compile only."""
+    rng = random.Random(ctx.seed + 909)
+    cfg = jsl.with_cfg(jsl.load_config(), early=True)
+    n = 40 if ctx.quick() else 400
+    checked = 0
+    for k in range(n):
+        nm = rng.choice([2, 3, 11, 12, 13])
+        d, feats = gen.gen_instance(rng, "full", nj=rng.randint(1, 3), nm=nm)
+        try:
+            inst, st = jsl.compile_dict(d, cfg)
+        except Exception as e:  # noqa
+            ctx.viol("compile:wellformed_rejected", "well-formed document raised %s" % type(e).__name__, {"dsl": d},
+                     facts={"exception": type(e).__name__})
+            continue
+        checked += 1
+        for v in setup_matrix_oracle(d, inst):
+            ctx.violations.append(v)
+    ctx.coverage["setup_matrices_documents_checked"] = checked
+
+
 def _dsl_worker(args):
     seed, n, big, prop = args
     import dsl_tok
@@ -915,7 +968,7 @@ def _dsl_worker(args):
             out["sections"]["init_state"] += 1
         try:
             inst, st = jsl.compile_dict(d, cfg)
-            for v in _direct_compile_oracles(d, inst, st):
+            for v in _direct_compile_oracles(d, inst, st) + setup_matrix_oracle(d, inst):
                 out["violations"].append(v)
             c = jsl.Codec(inst, True)
             impl = "(ok %s %s %s)" % (c.inst_sx, c.state(st), c.labels_sx())
